@@ -5,13 +5,12 @@ use crate::known;
 use crate::runner::*;
 use crate::sbx::{self, Boxed, Place};
 use mb2_model::exercise_mbi::MbiOpts;
-use mb2_model::transcript::{Transcript, Val};
+use mb2_model::transcript::Val;
 use mb2_model::walk::*;
 use mb2_model::*;
 use proptest::prelude::*;
 use serde::{Deserialize, Serialize};
 use serde_json::json;
-use std::collections::HashMap;
 
 pub const D16_SIG: &str = "C01/vbe-memory-model";
 
@@ -24,108 +23,7 @@ pub struct Case {
     pub excluded: u32,
 }
 
-/// Kinds whose accessors are driven by counts/lengths/strides stored in the tag.
-fn counted_kind(k: u64) -> bool {
-    matches!(k, 1 | 2 | 3 | 6 | 8 | 9 | 13 | 14 | 15 | 16 | 17)
-}
-
-pub struct Stats {
-    pub loaded: bool,
-    pub panics: usize,
-    pub counted_views: usize,
-    pub kinds: Vec<u64>,
-}
-
-/// The C01 oracle over a transcript: termination, every extent inside the
-/// region and inside the tag it was derived from.
-pub fn validate(t: &Transcript, region_len: usize) -> Result<Stats, String> {
-    validate_from(t, region_len, 8)
-}
-
-/// `first_tag`: offset of the first tag (8 for boot informations, 16 for headers).
-pub fn validate_from(t: &Transcript, region_len: usize, first_tag: usize) -> Result<Stats, String> {
-    let mut st = Stats { loaded: false, panics: 0, counted_views: 0, kinds: Vec::new() };
-    match t.get("load") {
-        Some(Val::Txt(s)) if s == "Ok" => st.loaded = true,
-        Some(Val::Err(_)) | Some(Val::Panic) => return Ok(st),
-        other => return Err(format!("load produced no classifiable outcome: {other:?}")),
-    }
-    // tag extents as the implementation reports them
-    let mut tags: HashMap<usize, (usize, usize)> = HashMap::new(); // index -> (off,len)
-    let mut by_off: HashMap<usize, usize> = HashMap::new();
-    let mut kinds: HashMap<usize, u64> = HashMap::new();
-    for (k, v) in &t.lines {
-        if let Val::Txt(s) = v {
-            if s == "step-bound" {
-                return Err(format!("{k}: iteration exceeded its step bound (does not terminate)"));
-            }
-        }
-        if v.is_panic() {
-            st.panics += 1;
-        }
-        if let Some(rest) = k.strip_prefix('w') {
-            if let Ok(i) = rest.parse::<usize>() {
-                if let Val::Ext(o, l) = v {
-                    if o % 8 != 0 || *o < first_tag || o.checked_add(*l).map_or(true, |e| e > region_len) {
-                        return Err(format!("{k}: tag extent ({o},{l}) is not inside the declared region of {region_len} bytes"));
-                    }
-                    tags.insert(i, (*o, *l));
-                    by_off.insert(*o, i);
-                }
-            } else if let Some((idx, field)) = rest.split_once('.') {
-                if let Ok(i) = idx.parse::<usize>() {
-                    if field == "typ" {
-                        if let Val::U(x) = v {
-                            kinds.insert(i, *x);
-                        }
-                    }
-                    if field == "size" {
-                        if let (Val::U(x), Some((_, l))) = (v, tags.get(&i)) {
-                            if r8(*x as usize) != *l {
-                                return Err(format!("{k}: stored size {x} but the item occupies {l} bytes in memory"));
-                            }
-                        }
-                    }
-                }
-            }
-        }
-    }
-    for (k, v) in &t.lines {
-        let Some((o, l)) = v.extent() else { continue };
-        let end = match o.checked_add(l) {
-            Some(e) if e <= region_len => e,
-            _ => return Err(format!("{k}: returned reference ({o},{l}) lies outside the declared region of {region_len} bytes")),
-        };
-        // owner tag
-        let owner: Option<usize> = if let Some(rest) = k.strip_prefix('t').or_else(|| k.strip_prefix('w')) {
-            rest.split('.').next().and_then(|s| s.parse::<usize>().ok())
-        } else if k.starts_with("g.") || (k.starts_with('m') && k[1..].parse::<usize>().is_ok()) {
-            match by_off.get(&o) {
-                Some(i) => Some(*i),
-                None => return Err(format!("{k}: returned a tag reference at offset {o} where the walk has no tag")),
-            }
-        } else {
-            None
-        };
-        if let Some(i) = owner {
-            let Some((to, tl)) = tags.get(&i) else {
-                return Err(format!("{k}: value derived from item {i} which the walk did not yield"));
-            };
-            if o < *to || end > to + tl {
-                return Err(format!("{k}: reference ({o},{l}) leaves the tag it was derived from (tag at {to}, {tl} bytes incl. padding)"));
-            }
-            if k.ends_with(".cast") {
-                if let Some(kind) = kinds.get(&i) {
-                    st.kinds.push(*kind);
-                    if counted_kind(*kind) {
-                        st.counted_views += 1;
-                    }
-                }
-            }
-        }
-    }
-    Ok(st)
-}
+pub use mb2_model::extent::{validate, validate_from, Stats};
 
 pub fn eval(c: &Case, obs: &mut Obs) -> Result<(), String> {
     let bytes = &c.region.0;
